@@ -253,6 +253,54 @@ fn check_value<D: Store + Mk>(v: &V, probe_absent: &[u64], acc: &mut Acc) {
             queries.push((V::Sym(*s), V::Unit, "key:absent".into()));
         }
     }
+    // length through the instruction, and the items in order through a cast to a list (both walk the whole value)
+    {
+        let list_type = match construct(&mut m, &V::List(vec![])) {
+            Ok(a) => a,
+            Err(_) => return,
+        };
+        for (ins, operands, want, qc) in [
+            (I::AccessLengthInternal, vec![addr], V::Int(n as i32), "length"),
+            (I::ApplyType, vec![addr, list_type], V::List(items.clone()), "cast-to-list"),
+        ] {
+            acc.evals += 1;
+            let depth_before = m.depth();
+            let one = match exec_one_at(&mut m, ins, None, &operands) {
+                Ok(o) => o,
+                Err(e) => {
+                    acc.inconclusive.push(format!("C16 setup: {}", e));
+                    continue;
+                }
+            };
+            let sigbase = format!("{:?}|{}|{}:{}|{}", ins, D::NAME, shape, mix, qc);
+            match (&one.outcome, &one.top) {
+                (Err(Fail::Panic(_, msg, loc)), _) => acc.violation(
+                    format!("panic|{}|{}", panic_site(loc), sigbase),
+                    format!("[{}] {:?} of {} panicked: {} at {}", D::NAME, ins, v.show(), msg, loc),
+                    payload(qc),
+                ),
+                (Err(Fail::Err(_, e)), _) => acc.violation(format!("err|{}", sigbase), format!("[{}] {:?} of {} failed: {}", D::NAME, ins, v.show(), e), payload(qc)),
+                (Ok(_), Some(Ok(got))) => {
+                    if *got != want {
+                        acc.violation(
+                            format!("wrong-value|{}", sigbase),
+                            format!("[{}] {:?} of {} = {}, expected {}", D::NAME, ins, v.show(), got.show().chars().take(200).collect::<String>(), want.show().chars().take(200).collect::<String>()),
+                            payload(qc),
+                        );
+                    }
+                    if m.depth() != depth_before + 1 {
+                        acc.violation(format!("result-count|{}", sigbase), format!("[{}] {:?} of {} left {} operands (exactly one result expected)", D::NAME, ins, v.show(), m.depth() as i64 - depth_before as i64), payload(qc));
+                    }
+                }
+                (Ok(_), other) => acc.violation(format!("unreadable|{}", sigbase), format!("[{}] {:?} of {}: result {:?}", D::NAME, ins, v.show(), other), payload(qc)),
+            }
+            while m.depth() > depth_before {
+                if m.pop_register().is_err() {
+                    break;
+                }
+            }
+        }
+    }
     for (q, want, qc) in queries {
         for ins in [I::Access, I::Apply] {
             if ins == I::Apply && is_concat(v) {
@@ -421,7 +469,7 @@ pub fn run(ctx: &Ctx) -> (Acc, String, bool) {
         }
     });
     let rule = format!(
-        "exhaustive: every list of length <= {} over 7 item kinds (number, text, symbol, pair keyed by a distinct symbol, pair keyed by a non-symbol, nested list, unit) = {} lists; random: {} lists (<= {} items) and concatenations of 2-3 lists with adversarial distinct symbol keys (congruent mod n, 0.., u64::MAX.., multiples of n, powers of two; sorted / reversed / shuffled). Each value on both stores: get_list_len, get_list_item inside and outside (n, n+1, n+7, -1, -2, i32 limits), iteration order, get_list_item_with_symbol for every present key and 5-8 absent keys, and the same queries through the Access and Apply instructions.",
+        "exhaustive: every list of length <= {} over 7 item kinds (number, text, symbol, pair keyed by a distinct symbol, pair keyed by a non-symbol, nested list, unit) = {} lists; random: {} lists (<= {} items) and concatenations of 2-3 lists with adversarial distinct symbol keys (congruent mod n, 0.., u64::MAX.., multiples of n, powers of two; sorted / reversed / shuffled). Each value on both stores: get_list_len, get_list_item inside and outside (n, n+1, n+7, -1, -2, i32 limits), iteration order, get_list_item_with_symbol for every present key and 5-8 absent keys, and the same queries through the Access and Apply instructions (each must leave exactly one result), plus the length through AccessLengthInternal and the item sequence through a cast to a list.",
         max_len, total_ex, random_total, ctx.pick(24, 64)
     );
     (acc, rule, false)
